@@ -8,6 +8,8 @@ props = [json.loads(l)['id'] for l in open(os.path.join(home, 'properties.jsonl'
 checks = []
 for pid in props:
     r = tbl['checks'].get(pid)
+    if pid not in tbl.get('ready', []):
+        continue
     if not r or not os.path.isdir(os.path.join(home, 'h', 'checks', pid.lower())):
         continue
     checks.append({
